@@ -197,7 +197,7 @@ def covered (st : State) (slices : List Slice) : Bool :=
   (teamFields.all fun f => (List.range st.teams.length).all fun i => slices.any (covers true f i))
 
 def wf (cfg : Config) (st : State) : Bool :=
-  wfVars st && st.players.all wfPlayer && st.teams.all wfTeam &&
+  wfVars st && st.players.all wfPlayer && st.teams.all wfTeam && st.players.length < 2 ^ 32 &&
   (st.pids.all fun l => l.length == st.players.length && l.all okItem) &&
   cfg.layout.flatten.all (wfSlice st) && covered st cfg.layout.flatten &&
   !cfg.layout.isEmpty && (cfg.layout.drop 1).all (fun ss => !ss.isEmpty) && cfg.layout.length ≤ 128 &&
